@@ -18,6 +18,43 @@ def poly_glyph(contours, components=None):
     return pen.glyph()
 
 
+def _charstring(contours, width):
+    from fontTools.pens.t2CharStringPen import T2CharStringPen
+
+    pen = T2CharStringPen(width, None)
+    for pts in contours:
+        pen.moveTo(pts[0])
+        for q in pts[1:]:
+            pen.lineTo(q)
+        pen.closePath()
+    return pen.getCharString()
+
+
+def make_cff_font(glyphs, cmap=None, upem=1000, ascender=800, descender=-200, advances=None, colr=None, colr_version=1, palettes=None):
+    order = list(glyphs)
+    fb = FontBuilder(upem, isTTF=False)
+    fb.setupGlyphOrder(order)
+    fb.setupCharacterMap(dict(cmap or {}))
+    adv = {n: (advances or {}).get(n, upem) for n in order}
+    fb.setupCFF("VerifMini-Regular", {"FullName": "VerifMini"}, {n: _charstring(glyphs[n][0], adv[n]) for n in order}, {})
+    metrics = {}
+    for n in order:
+        xs = [p[0] for c in glyphs[n][0] for p in c]
+        metrics[n] = (adv[n], min(xs) if xs else 0)
+    fb.setupHorizontalMetrics(metrics)
+    fb.setupHorizontalHeader(ascent=ascender, descent=descender)
+    fb.setupOS2(sTypoAscender=ascender, sTypoDescender=descender, sTypoLineGap=0, usWinAscent=ascender, usWinDescent=-descender)
+    fb.setupNameTable({"familyName": "VerifMini", "styleName": "Regular"})
+    fb.setupPost()
+    if colr is not None:
+        fb.setupCOLR(colr, version=colr_version)
+        fb.setupCPAL(palettes or [[(1, 0, 0, 1), (0, 0, 1, 1), (0, 0, 0, 1)]])
+    buf = io.BytesIO()
+    fb.save(buf)
+    data = buf.getvalue()
+    return TTFont(io.BytesIO(data), lazy=False), data
+
+
 def make_font(glyphs, cmap=None, upem=1000, ascender=800, descender=-200, advances=None, colr=None, colr_version=1,
               palettes=None, names=True, clip_boxes=None):
     """glyphs: ordered dict name -> (contours, components) ; .notdef must be first. Returns reloaded TTFont and bytes."""
